@@ -28,6 +28,13 @@ class FaultSolver(pulp.LpSolver):
             return pulp.PULP_CBC_CMD(msg=False).actualSolve(lp)
         if beh == "raise":
             raise pulp.PulpSolverError("injected solver failure")
+        if beh in ("claims-optimal-zeros", "claims-optimal-level0"):
+            # a back-end that reports success without a solution behind it (what the bundled CBC does when it stops on an iteration limit of 0):
+            # every variable 0, or every region on level 0 - neither is a proper assignment of a knotted structure
+            for v in lp.variables():
+                v.varValue = (1 if v.name.endswith("_0") else 0) if beh.endswith("level0") else 0
+            lp.assignStatus(pulp.LpStatusOptimal)
+            return pulp.LpStatusOptimal
         if self.garbage:
             # a solver that stopped early may leave arbitrary values behind: put every region on level 0
             for v in lp.variables():
